@@ -717,7 +717,9 @@ func (dr *dirRepo) gc() error {
 			}
 			return errors.Join(errs...)
 		}()
-		if errDir == nil {
+		// without its oci-layout the repository is gone, even if something foreign keeps the directory:
+		// the next push has to initialize it again
+		if _, errLayout := os.Stat(filepath.Join(dr.path, layoutFile)); errDir == nil || errors.Is(errLayout, fs.ErrNotExist) {
 			dr.exists = false
 		}
 	}
